@@ -3,6 +3,7 @@ import Driver.Proto
 import Driver.RunH
 import Lace.Model.Debugger
 import Lace.Model.Eval
+import Lace.Model.DebuggerRef
 open Lace Lace.Driver Lace.Dbg Lace.Cmd
 
 namespace Lace.Driver
@@ -162,19 +163,48 @@ def handleDbg (tag : String) (toks : List String) : String :=
       let env := fillEnv r (!nm)
       let w : World := { inp := r.inp, outRev := [] }
       let d := newDbg loaded (r.breaks.map (BitVec.ofNat 16)) r.cmds
+      -- one observation line from its parts (shared by the model and, for D10, the reference)
+      let fmtParts (head : String) (m : Machine) (w : World) (nexec : Nat) (pcs : List Word)
+          (ncmds : Nat) (cmdAt : List Nat) (bps err : String) : String :=
+        head ++ " " ++ showRegs m ++ " |" ++ memDiff loaded m ++ " | " ++ showWorld w ++ " | " ++
+          toString nexec ++ " " ++ hex16 (fnv pcs) ++ " | " ++ toString ncmds ++ " " ++
+          hex16 (fnv (cmdAt.map (BitVec.ofNat 16))) ++ " | " ++ bps ++ " | " ++ err
       let fmt (head : String) (att : Bool) (d : Dbg) (m : Machine) (w : World) (ex : List Word) :
           String × String × String × Nat :=
         let pcs := ex.reverse
-        (head ++ " " ++ showRegs m ++ " |" ++ memDiff loaded m ++ " | " ++ showWorld w ++ " | " ++
-          toString pcs.length ++ " " ++ hex16 (fnv pcs) ++ " | " ++ toString d.ncmds ++ " " ++
-          hex16 (fnv (d.cmdAt.reverse.map (BitVec.ofNat 16))) ++ " | " ++
-          showBps att d ++ " | " ++ (if nm then "~" else showErr d), head, progBody loaded m w, pcs.length)
+        (fmtParts head m w pcs.length pcs d.ncmds d.cmdAt.reverse (showBps att d) (if nm then "~" else showErr d),
+          head, progBody loaded m w, pcs.length)
+      let modelRun := runLoop env r.fuel true d loaded w []
       let (line, head, body, nexec) :=
-        match runLoop env r.fuel true d loaded w [] with
+        match modelRun with
         | .done att d m w ex => fmt "done" att d m w ex
         | .exit c att d m w ex => fmt ("exit " ++ toString c) att d m w ex
         | .fuel att d m w ex => fmt "fuel" att d m w ex
         | .panic _ => ("panic", "panic", "", 0)
+      -- D10: the REFERENCE debugger (`Spec/RefDebug.lean`) on the same session, when the script is
+      -- `cs; exit` with `cs` over C10's alphabet and the model session ended: outcome, machine,
+      -- world, instruction count, executed addresses (the reference machine's fetch sequence) and
+      -- the command / execution interleaving come from the reference; the breakpoint list with its
+      -- predefined marks and the stderr lines (not part of the reference) are the model's.
+      let refLine : Option String :=
+        if tag != "D10" || head == "fuel" || head == "panic" then none else
+        match r.cmds.reverse with
+        | .exit :: revcs =>
+          let cs := revcs.reverse
+          if !cs.all C10.InAlphabet then none else
+          let (bpsS, errS) : String × String := match modelRun with
+            | .done att d _ _ _ => (showBps att d, if nm then "~" else showErr d)
+            | .exit _ att d _ _ _ => (showBps att d, if nm then "~" else showErr d)
+            | _ => ("", "")
+          let R := C10.refSession env r.fuel loaded (r.breaks.map (BitVec.ofNat 16)) cs loaded w
+          let pcs := Run.fetches r.so (!nm) R.executed loaded w
+          let parts (head : String) (m : Machine) (w : World) : String :=
+            fmtParts head m w R.executed pcs R.log.length (R.log.map (·.executed)) bpsS errS
+          match R.final with
+          | .exited m w => some (parts "done" m w)
+          | .ended c m w => some (parts ("exit " ++ toString c) m w)
+          | _ => none
+        | _ => none
       let plainRun (fuel : Nat) : String × String :=
         match Run.loop r.so (!nm) fuel loaded w with
         | .done m w => ("done", progBody loaded m w)
@@ -200,6 +230,6 @@ def handleDbg (tag : String) (toks : List String) : String :=
         else if tag == "D16" then ("progress=ok", "progress=ok")
         else ("-", "-")
       if line == "panic" then "M panic | -" else
-      "M " ++ line ++ " | " ++ verdict ++ " ;; S " ++ line ++ " | " ++ demanded
+      "M " ++ line ++ " | " ++ verdict ++ " ;; S " ++ refLine.getD line ++ " | " ++ demanded
 
 end Lace.Driver
